@@ -169,41 +169,6 @@ pub fn pow10(k: u32) -> BigInt {
     BigInt::from(10).pow(k)
 }
 
-/// truncated division (toward zero) and remainder with the sign of the dividend, on BigInt
-pub fn div_trunc(a: &BigInt, b: &BigInt) -> (BigInt, BigInt) {
-    // num-bigint's `/` and `%` truncate toward zero like the primitive integers
-    (a / b, a % b)
-}
-
-pub fn big_expect<N: BigN>(op: IOp, a: N, b: N) -> Exp<N> {
-    let (x, y) = (a.to_big(), b.to_big());
-    let zero = BigInt::from(0);
-    let exact = match op {
-        IOp::Add | IOp::AddW => &x + &y,
-        IOp::Sub | IOp::SubW => &x - &y,
-        IOp::Mul | IOp::MulW => &x * &y,
-        IOp::Div => {
-            if y == zero {
-                return Exp::Err;
-            }
-            div_trunc(&x, &y).0
-        }
-        IOp::Rem => {
-            if y == zero {
-                return Exp::Err;
-            }
-            div_trunc(&x, &y).1
-        }
-    };
-    match op {
-        IOp::AddW | IOp::SubW | IOp::MulW => Exp::Val(N::wrap_big(&exact)),
-        _ => match N::from_big(&exact) {
-            Some(v) => Exp::Val(v),
-            None => Exp::Err,
-        },
-    }
-}
-
 // ---------------------------------------------------------------------------------------------
 // Boundary lattices
 
